@@ -536,6 +536,22 @@ example : (match parseRoute (rawPattern (b "/A/:Id")), parseRoute (writtenPatter
         (modelObs (fun _ _ => true) {} false (b "/A/:Id") (b "/a/X")) == none
     | _, _, _ => false) = true := by decide
 
+/-- **Statelessness, named.** In the model the observation of the i-th request of a history does not
+    depend on the requests before or after it: it is the observation of that request served alone.
+    The differential check holds the implementation to this (history cases: one app, 2-4 requests on
+    a reused fasthttp.RequestCtx, parameter values of equal length with different verdicts); every
+    per-request theorem above (`route_sound_written`, `model_meets_spec`, …) therefore applies to each
+    request of a history. -/
+theorem history_stateless (chk : Constraint → Bytes → Bool) (cfg : Config) (use : Bool) (pattern : Bytes)
+    (before after : List Bytes) (req : Bytes) :
+    (historyObs chk cfg use pattern (before ++ req :: after))[before.length]? =
+      some (modelObs chk cfg use pattern req) := by
+  unfold historyObs
+  simp
+
+example : (historyObs (fun _ _ => true) {} false (b "/a/:x") [b "/a/b", b "/a", b "/a/c"]).map (·.ran) = [1, 0, 1] := by
+  decide
+
 /-- Former known finding K1, on the repaired code: default configuration (case-insensitive routing),
     `GET /:x<regex(^[A-Z]+$)>`. The routed parser carries the regex as written, so with the documented
     meaning of that regex the request `/abc` is rejected and `/ABC` is served with x = "ABC" (the
